@@ -90,6 +90,7 @@ def summarize_l2(run, res, cfgs, sigfn=None):
         if r["sample"]:
             run.sample(r["sample"], cap=2)
         run.count("L2 executions mode:" + c.mode[0], r["executions"])
+        run.count("L2 configurations with %s-typed initial state" % stoch.x0_dtype(c).__name__)
         if r["skipped"]:
             run.count("L2 skipped:" + r["skipped"][:60])
         for why, n in r["unjudged"].items():
